@@ -66,6 +66,7 @@ ANCHORS = [
     ("lib/sqlalchemy/dialects/sqlite/base.py", "SQLiteDialect.get_indexes"),
     ("lib/sqlalchemy/dialects/sqlite/base.py", "SQLiteDDLCompiler.get_column_specification"),
     ("lib/sqlalchemy/dialects/sqlite/base.py", "SQLiteDDLCompiler.visit_create_index"),
+    ("lib/sqlalchemy/engine/reflection.py", "_ReflectionInfo"),
     ("lib/sqlalchemy/sql/compiler.py", "DDLCompiler.visit_unique_constraint"),
     ("lib/sqlalchemy/sql/compiler.py", "DDLCompiler.define_constraint_preamble"),
     ("lib/sqlalchemy/sql/compiler.py", "DDLCompiler.define_unique_body"),
@@ -167,6 +168,33 @@ def source_rules(repo):
     return _bool_expr(rules[0]), qualified
 
 
+def info_fields(repo):
+    """(categories of _ReflectionInfo, indices of those its update() merges)"""
+    with open(os.path.join(repo, "lib/sqlalchemy/engine/reflection.py")) as f:
+        tree = ast.parse(f.read())
+    cls = [n for n in ast.walk(tree) if isinstance(n, ast.ClassDef) and n.name == "_ReflectionInfo"]
+    if len(cls) != 1:
+        raise RuntimeError("cannot find _ReflectionInfo")
+    fields = [n.target.id for n in cls[0].body if isinstance(n, ast.AnnAssign) and isinstance(n.target, ast.Name)]
+    upd = [n for n in cls[0].body if isinstance(n, ast.FunctionDef) and n.name == "update"]
+    if len(upd) != 1 or not fields:
+        raise RuntimeError("_ReflectionInfo: fields / update() not found")
+    merged = set()
+    for n in ast.walk(upd[0]):
+        if isinstance(n, ast.For):
+            it = ast.unparse(n.iter)
+            if it in ("self.__dict__.items()", "self.__dict__", "vars(self).items()", "vars(self)"):
+                merged.update(fields)
+            elif isinstance(n.iter, (ast.Tuple, ast.List)):
+                merged.update(e.value for e in n.iter.elts if isinstance(e, ast.Constant) and isinstance(e.value, str))
+        if isinstance(n, ast.Call) and isinstance(n.func, ast.Attribute) and n.func.attr == "update":
+            v = n.func.value
+            if isinstance(v, ast.Attribute) and isinstance(v.value, ast.Name) and v.value.id == "self" and n.args \
+                    and ast.unparse(n.args[0]) == "other." + v.attr:
+                merged.add(v.attr)
+    return fields, sorted(fields.index(m) for m in merged if m in fields)
+
+
 PROBE_ARGS = [7, 8, 9, 11, 12, 13]
 
 
@@ -254,6 +282,7 @@ def translate(repo, outdir):
     _TABS["facts"] = f
     _patterns(repo)
     rule, qualified = source_rules(repo)
+    ifields, imerged = info_fields(repo)
     src = (
         "(* generated on every run by specs/c15.py from the current source / the live dialect - do not edit *)\n"
         "From Coq Require Import List NArith Bool.\nImport ListNotations.\n"
@@ -277,12 +306,18 @@ def translate(repo, outdir):
         + "Definition gen_nullable_rule (nn pk : bool) : bool := %s.\n" % rule
         + "(* does the partial-index lookup of get_indexes name the table's schema? *)\n"
         + "Definition gen_index_query_qualified : bool := %s.\n\n" % ("true" if qualified else "false")
+        + "(* _ReflectionInfo: categories %s; the ones update() merges *)\n" % ", ".join("%d=%s" % (i, n) for i, n in enumerate(ifields))
+        + "Definition gen_info_nfields : N := %d.\nDefinition gen_info_merged : list N := [%s].\n\n" % (len(ifields), "; ".join(str(i) for i in imerged))
         + "Definition run_case := run_with t_sqlite gen_aff.\n"
     )
     src2 = (
         "(* generated on every run - per-run obligations on the regenerated tables *)\n"
         "From Coq Require Import List NArith Bool.\nImport ListNotations.\n"
-        "From SAV.sql Require Import Ident Reflect ReflectProofs ReflectAffinity ReflectTheorems ReflectIndex.\nRequire Import Gen.Gen_C15.\nOpen Scope N_scope.\n\n"
+        "From SAV.sql Require Import Ident Reflect ReflectProofs ReflectAffinity ReflectTheorems ReflectIndex ReflectInfo.\nRequire Import Gen.Gen_C15.\nOpen Scope N_scope.\n\n"
+        "Lemma gen_info_merged_ok : all_below gen_info_nfields gen_info_merged = true.\nProof. vm_compute; reflexivity. Qed.\n"
+        "Theorem gen_reflection_info_update_complete : forall self other f k, f < gen_info_nfields ->\n"
+        "  lookup (update gen_info_merged self other) f k = match lookup other f k with Some v => Some v | None => lookup self f k end.\n"
+        "Proof. exact (update_complete gen_info_merged gen_info_nfields (all_below_spec _ _ gen_info_merged_ok)). Qed.\n"
         "Lemma gen_nullable_rule_ok : forall nn pk, gen_nullable_rule nn pk = negb nn.\nProof. intros [] []; reflexivity. Qed.\n"
         "Lemma gen_index_query_qualified_ok : gen_index_query_qualified = true.\nProof. reflexivity. Qed.\n"
         "Theorem gen_nullable_roundtrip : forall c, reflect_nullable gen_nullable_rule c = c_nullable c.\n"
@@ -673,7 +708,13 @@ def _table_cases(rng, tier):
         parent = {"name": other.pop() if awkward and rng.random() < 0.3 else "parent", "pk": ["id"] if rng.random() < 0.7 else ["p1", other.pop() if awkward else "p2"]}
         if parent["name"] == tbl["name"]:
             parent["name"] = "parent"
+        # the referred table has UNIQUE constraints of its own (plain names: this is about the merge of the
+        # reflection data of a table that is pulled in through a foreign key, not about name parsing)
+        parent["uq"] = rng.choice([[], [["puq1", ["u1"]]], [[None, ["u1", "u2"]]], [["puq1", ["u2"]], ["puq2", ["u1", "u2"]]]])
         tbl["parent"] = parent
+        # how the tables get into the second MetaData: both named / only the referencing one (the referred one is
+        # pulled in by resolve_fks) / MetaData.reflect(only=[referencing])
+        tbl["rmode"] = rng.choice(["both", "child", "child", "only"])
         for _ in range(rng.choice([0, 0, 1, 1, 2])):
             if len(parent["pk"]) > ncol:
                 continue
@@ -720,7 +761,9 @@ def _build(tbl, md):
 
     p = tbl["parent"]
     sch = tbl.get("schema")
-    pt = sa.Table(p["name"], md, *[sa.Column(c, sa.Integer, primary_key=True) for c in p["pk"]], schema=sch)
+    pt = sa.Table(p["name"], md, *([sa.Column(c, sa.Integer, primary_key=True) for c in p["pk"]]
+                                   + [sa.Column(c, sa.Integer) for c in ("u1", "u2") if c not in p["pk"]]
+                                   + [sa.UniqueConstraint(*cc, name=n) for n, cc in p.get("uq", [])]), schema=sch)
     cols = []
     for c in tbl["cols"]:
         ty = getattr(sa, c["t"][0])(*c["t"][1:])
@@ -795,7 +838,7 @@ def _table_impl(c):
     import sqlalchemy as sa
 
     tbl = c["tbl"]
-    out = {"created": None, "r1": None, "r2": None, "err": None, "bare": {}, "probe": None}
+    out = {"created": None, "r1": None, "r2": None, "r1p": None, "r2p": None, "err": None, "bare": {}, "probe": None}
     sch = tbl.get("schema")
     with warnings.catch_warnings():
         warnings.simplefilter("ignore")
@@ -824,15 +867,24 @@ def _table_impl(c):
         }
         try:
             out["r1"] = _snapshot(sa.inspect(e1), tbl["name"], d, sch)
+            out["r1p"] = _snapshot(sa.inspect(e1), tbl["parent"]["name"], d, sch)
         except Exception as ex:
             out["err"] = ["reflect", type(ex).__name__, str(ex)[:200]]
             return [0, S(json.dumps(out))]
         try:
             m2 = sa.MetaData()
-            sa.Table(tbl["parent"]["name"], m2, schema=sch, autoload_with=e1)
-            sa.Table(tbl["name"], m2, schema=sch, autoload_with=e1)
+            mode = tbl.get("rmode", "both")
+            if mode == "both":
+                sa.Table(tbl["parent"]["name"], m2, schema=sch, autoload_with=e1)
+            if mode == "only":
+                m2.reflect(bind=e1, schema=sch, only=[tbl["name"]])
+            else:
+                sa.Table(tbl["name"], m2, schema=sch, autoload_with=e1)
             m2.create_all(e2)
             out["r2"] = _snapshot(sa.inspect(e2), tbl["name"], d, sch)
+            pkey = tbl["parent"]["name"] if sch is None else sch + "." + tbl["parent"]["name"]
+            if pkey in m2.tables:
+                out["r2p"] = _snapshot(sa.inspect(e2), tbl["parent"]["name"], d, sch)
         except Exception as ex:
             out["err"] = ["recreate", type(ex).__name__, str(ex)[:200]]
             return [0, S(json.dumps(out))]
@@ -986,6 +1038,14 @@ def _table_oracle(c, obs):
         k = "-"
         return "ASPECT=fixpoint:%s known=%s :: first reflection %s, reflection of the re-created table %s" % (
             ",".join(diff), k, json.dumps({x: r1[x] for x in diff}), json.dumps({x: o["r2"][x] for x in diff}))
+    # the referred table: its UNIQUE constraints are reflected, and survive reflection through the foreign key
+    puq = sorted([[n, cc] for n, cc in tbl["parent"].get("uq", [])], key=json.dumps)
+    if o.get("r1p") and not any(_bad_chars(x, o["bare"].get(x)) or ")" in x for x in tbl["parent"]["pk"]) and o["r1p"]["uq"] != puq:
+        return "ASPECT=referred-uq known=- :: referred table created with %s reflected %s" % (json.dumps(puq), json.dumps(o["r1p"]["uq"]))
+    if o.get("r2p") and o["r2p"] != o["r1p"]:
+        diff = [k for k in o["r1p"] if o["r1p"][k] != o["r2p"][k]]
+        return "ASPECT=fixpoint-referred:%s known=- :: the referred table, reflected through the foreign key (%s) and re-created: first reflection %s, after re-creation %s" % (
+            ",".join(diff), tbl.get("rmode"), json.dumps({x: o["r1p"][x] for x in diff}), json.dumps({x: o["r2p"][x] for x in diff}))
     if o.get("probe"):
         return "ASPECT=data-probe known=- :: the re-created table rejects the row %s which the original accepted: %s" % (
             json.dumps(o["probe"][0]), o["probe"][1])
